@@ -26,6 +26,7 @@ from __future__ import annotations
 
 import json
 import random
+import re
 
 import numpy as np
 
@@ -34,11 +35,11 @@ from ..core import MachineryError
 MODULE = "ProcessGrammar"
 TAG = "growth-g03"
 INVARIANTS = ("TypeOK NsBijective ChainNsCoherent FoldIsDeclarative AcceptEquiv SubDefaultsUnused "
-              "RunIsDataFlow NestAssoc ResOK")
+              "RunIsDataFlow NestAssoc RawTheorem ResOK")
 
 
 def cfg(n, nn, ns, max_ops, first, stride, count, *, rejected=False, kinds=("chain", "parallel"),
-        execute=False, emit=True, wide=False):
+        execute=False, emit=True, wide=False, invariants=INVARIANTS, action_property=True):
     b = lambda x: "TRUE" if x else "FALSE"  # noqa: E731
     return (
         "CONSTANTS\n"
@@ -46,8 +47,8 @@ def cfg(n, nn, ns, max_ops, first, stride, count, *, rejected=False, kinds=("cha
         f" AllowRejected = {b(rejected)}\n Kinds = {{{', '.join(json.dumps(k) for k in kinds)}}}\n"
         f" First = {first}\n Stride = {stride}\n Count = {count}\n WideData = {b(wide)}\n DoExecute = {b(execute)}\n Emit = {b(emit)}\n"
         "SPECIFICATION Spec\n"
-        f"INVARIANTS {INVARIANTS}\n"
-        "PROPERTY NsCouplingStep\n"
+        f"INVARIANTS {invariants}\n"
+        + ("PROPERTY NsCouplingStep\n" if action_property else "")
     )
 
 
@@ -181,7 +182,7 @@ def expected_disc(rec):
 class Replayer:
     def __init__(self, header, rng, par_execs, max_nests=1):
         self.h, self.rng, self.par_execs, self.max_nests = header, rng, par_execs, max_nests
-        self.n_cases = self.n_execs = self.n_ops = self.n_rejected = self.n_nested = 0
+        self.n_cases = self.n_execs = self.n_ops = self.n_rejected = self.n_nested = self.n_raw = self.n_raw_differ = 0
         self.observations = []      # (clause, signature, detail): handed to ck.observe by the parent process
 
     def obs(self, clause, case, what, expected, got, **more):
@@ -322,6 +323,35 @@ class Replayer:
                 return False
         return True
 
+    def replay_raw(self, case, grammar_type, ex):
+        """The members executed by hand on D (no composite): the specification computed what they return
+        (`raw`), which differs from what the composite returns when the defaults are not coherent."""
+        from gemseo.core.grammars.errors import InvalidDataError
+
+        self.n_raw += 1
+        discs = self.build_leaves(case, grammar_type)
+        if not self.apply_ops(case, discs):
+            return False
+        data = arrays(int_map(ex["D"]))
+        out_names = set().union(*(set(d.io.output_grammar.names) for d in discs))
+        try:
+            if case["kind"] == "chain":
+                for d in discs:
+                    data.update(d.execute(data))
+            else:
+                results = [d.execute(data) for d in discs]
+                data = dict(data)
+                for d, res in zip(discs, results):
+                    data.update({k: res[k] for k in d.io.output_grammar.names})
+            got = {"ok": True, "outs": {k: v for k, v in real_ints(data).items() if k in out_names}}
+        except InvalidDataError:
+            got = {"ok": False, "outs": {}}
+        exp = {"ok": ex["raw"]["ok"], "outs": int_map(ex["raw"]["outs"])}
+        if got != exp:
+            self.obs("members-executed-by-hand", case, "raw", {"D": int_map(ex["D"]), **exp}, got)
+            return False
+        return True
+
     def replay_nested(self, case, nst, grammar_type, execs):
         """MDOChain([.., MDOChain(members lo..hi), ..]): the specification says (invariant NestAssoc, and the
         `same` field evaluated by TLC for this record) that it behaves as the flat chain of the record."""
@@ -338,6 +368,9 @@ class Replayer:
         ok = self.check_composite_grammar(case, inner, nst["inner"], where + "inner.")
         ok = self.check_composite_grammar(case, outer, nst["g"], where) and ok
         if nst["same"]:
+            if len(execs) > 6:          # the largest data set + a seeded sample
+                full = max(execs, key=lambda e: len(as_map(e["D"])))
+                execs = [full] + self.rng.sample([e for e in execs if e is not full], 5)
             for ex in execs:
                 ok = self.check_exec(case, outer, discs, ex, where) and ok
         return ok
@@ -369,6 +402,11 @@ class Replayer:
                 execs = execs[-1:]
             for ex in execs:
                 ok = self.check_exec(case, comp, discs, ex) and ok
+            differ = [e for e in execs if not e["rawsame"]]
+            agree = [e for e in execs if e["rawsame"]]
+            for ex in self.rng.sample(differ, min(2, len(differ))) + self.rng.sample(agree, min(1, len(agree))):
+                ok = self.replay_raw(case, grammar_type, ex) and ok
+                self.n_raw_differ += not ex["rawsame"]
             nests = sorted(case.get("nest", ()), key=lambda x: (x["lo"], x["hi"]))
             if len(nests) > self.max_nests:
                 nests = self.rng.sample(nests, self.max_nests)
@@ -389,7 +427,7 @@ def families(ck):
     if not ck.thorough:
         return [
             # every add_namespace call, accepted or rejected (KeyError / ValueError), then Execute as an action
-            ("2x2-rejected", dict(n=2, nn=2, ns=["n"], max_ops=1, first=(7 + s) % 1663, stride=1663, count=6,
+            ("2x2-rejected", dict(n=2, nn=2, ns=["n"], max_ops=1, first=(7 + s) % 2477, stride=2477, count=4,
                                   rejected=True, execute=True), 1),
             # two calls (the order of the calls is part of the behaviour)
             ("2x2-two-ops", dict(n=2, nn=2, ns=["n"], max_ops=2, first=(3 + s) % 1249, stride=1249, count=8,
@@ -400,21 +438,21 @@ def families(ck):
                                       count=100), 1),
         ]
     return [
-        ("2x2-rejected", dict(n=2, nn=2, ns=["n"], max_ops=1, first=(7 + s) % 199, stride=199, count=50,
+        ("2x2-rejected", dict(n=2, nn=2, ns=["n"], max_ops=1, first=(7 + s) % 331, stride=331, count=30,
                               rejected=True, execute=True), 2),
-        ("2x2-one-op", dict(n=2, nn=2, ns=["n"], max_ops=1, first=(2 + s) % 13, stride=13, count=769, wide=True), 4),
-        ("2x2-two-ops", dict(n=2, nn=2, ns=["n"], max_ops=2, first=(3 + s) % 199, stride=199, count=50, wide=True), 4),
-        ("3x2-two-ops", dict(n=3, nn=2, ns=["n"], max_ops=2, first=(11 + s) % 39989, stride=39989, count=25,
+        ("2x2-one-op", dict(n=2, nn=2, ns=["n"], max_ops=1, first=(2 + s) % 25, stride=25, count=400, wide=True), 4),
+        ("2x2-two-ops", dict(n=2, nn=2, ns=["n"], max_ops=2, first=(3 + s) % 331, stride=331, count=30, wide=True), 4),
+        ("3x2-two-ops", dict(n=3, nn=2, ns=["n"], max_ops=2, first=(11 + s) % 66653, stride=66653, count=15,
                              kinds=("chain",)), 4),
-        ("2x3-two-ops", dict(n=2, nn=3, ns=["n"], max_ops=2, first=(5 + s) % 39983, stride=39983, count=25,
+        ("2x3-two-ops", dict(n=2, nn=3, ns=["n"], max_ops=2, first=(5 + s) % 66643, stride=66643, count=15,
                              kinds=("chain",)), 4),
-        ("3x2-one-op", dict(n=3, nn=2, ns=["n"], max_ops=1, first=(11 + s) % 4999, stride=4999, count=200), 4),
-        ("2x3-one-op", dict(n=2, nn=3, ns=["n"], max_ops=1, first=(5 + s) % 4993, stride=4993, count=200), 4),
-        ("3x3-one-op", dict(n=3, nn=3, ns=["n"], max_ops=1, first=(13 + s) % 9999991, stride=9999991, count=100), 4),
-        ("2x4-one-op", dict(n=2, nn=4, ns=["n"], max_ops=1, first=(17 + s) % 999983, stride=999983, count=100), 4),
-        ("3x3-no-namespace", dict(n=3, nn=3, ns=[], max_ops=0, first=(13 + s) % 999983, stride=999983,
-                                  count=1000), 4),
-        ("2x2-no-namespace", dict(n=2, nn=2, ns=[], max_ops=0, first=s % 2, stride=2, count=5000, wide=True), 4),
+        ("3x2-one-op", dict(n=3, nn=2, ns=["n"], max_ops=1, first=(11 + s) % 8329, stride=8329, count=120), 4),
+        ("2x3-one-op", dict(n=2, nn=3, ns=["n"], max_ops=1, first=(5 + s) % 8317, stride=8317, count=120), 4),
+        ("3x3-one-op", dict(n=3, nn=3, ns=["n"], max_ops=1, first=(13 + s) % 16666643, stride=16666643, count=60), 4),
+        ("2x4-one-op", dict(n=2, nn=4, ns=["n"], max_ops=1, first=(17 + s) % 1666663, stride=1666663, count=60), 4),
+        ("3x3-no-namespace", dict(n=3, nn=3, ns=[], max_ops=0, first=(13 + s) % 1666663, stride=1666663,
+                                  count=600), 4),
+        ("2x2-no-namespace", dict(n=2, nn=2, ns=[], max_ops=0, first=s % 4, stride=4, count=2500, wide=True), 4),
     ]
 
 
@@ -435,7 +473,8 @@ def _replay_chunk(args):
         gt = "JSONGrammar" if (case["code"] + i) % 2 == 0 else "SimpleGrammar"
         quiet += bool(rp.replay(case, gt))
     return {"cases": rp.n_cases, "execs": rp.n_execs, "ops": rp.n_ops, "rejected_ops": rp.n_rejected,
-            "nested": rp.n_nested, "quiet_cases": quiet, "observations": rp.observations}
+            "nested": rp.n_nested, "by_hand": rp.n_raw, "by_hand_differs_from_composite": rp.n_raw_differ,
+            "quiet_cases": quiet, "observations": rp.observations}
 
 
 def run(ck):
@@ -443,17 +482,17 @@ def run(ck):
     from concurrent.futures import ThreadPoolExecutor
 
     fams = families(ck)
-    n_jvm = 4 if ck.thorough else 5
+    n_jvm = 4 if ck.thorough else 6
 
     def model_check(item):
         label, kw, workers = item
-        # TLC's coverage statistics double the run time: they are asked for in the family that has the Execute
-        # action only; the other actions are visible in the printed records (checked below)
-        with_execute = kw.get("execute", False)
+        # TLC's coverage statistics double the run time: vacuity is checked on the printed records instead (which
+        # add_namespace calls were accepted, which composites were built) and, for Execute, on the depth of the
+        # state graph (Init, calls, Build, Execute)
         r = ck.tlc(MODULE, cfg(**kw), workers=workers, timeout=1200 if ck.thorough else 240, deadlock=False,
-                   coverage=with_execute, tag=f"{TAG}/{label}", env={"JAVA_TOOL_OPTIONS": _JVM},
-                   require_actions=("AddNamespaceToInput", "AddNamespaceToOutput", "Build", "ExecuteAny")
-                   if with_execute else ())
+                   coverage=False, tag=f"{TAG}/{label}", env={"JAVA_TOOL_OPTIONS": _JVM})
+        if kw.get("execute") and r.depth < kw["max_ops"] + 3:
+            raise MachineryError(f"G03: vacuity: Execute never taken in family {label} (depth {r.depth})")
         recs = list(printed_json(r.out))
         header = next((x for x in recs if x.get("tag") == "HEADER"), None)
         # one-line records: complete whatever the number of TLC workers; sorted, the order is deterministic
@@ -469,9 +508,28 @@ def run(ck):
             raise MachineryError(f"G03: vacuity: a kind of composite was never built in family {label}")
         return label, kw, r, header, cases
 
+    def non_theorem(_):
+        """`RawAlwaysAgrees` is NOT an invariant of the specification: TLC must find the counterexample (two
+        members with different defaults / requirements for a shared input).  Recorded as a design observation."""
+        r = ck.tlc(MODULE, cfg(n=2, nn=2, ns=[], max_ops=0, first=0, stride=1, count=10000, emit=False, wide=True,
+                               invariants="RawAlwaysAgrees", action_property=False),
+                   workers=1, timeout=240, deadlock=False, coverage=False, count=False, expect_ok=False,
+                   tag=f"{TAG}/non-theorem", env={"JAVA_TOOL_OPTIONS": _JVM})
+        if r.violated != "RawAlwaysAgrees":
+            raise MachineryError("G03: TLC found no counterexample to RawAlwaysAgrees (expected: the composite's "
+                                 "defaults differ from its members')")
+        code = re.findall(r"/\\ code = (\d+)", r.out)
+        kind = re.findall(r'<Build\("(\w+)"\)', r.out)
+        return {"violated": r.violated, "counterexample_instance_code": int(code[-1]) if code else None,
+                "composite": kind[-1] if kind else None,
+                "meaning": "members with different defaults/requirements for a shared input: the composite feeds "
+                           "all of them the default of the last member that declares one"}
+
     # 1. the specification: every family model-checked (invariants + action property), CASE records printed
-    with ThreadPoolExecutor(max_workers=min(n_jvm, len(fams))) as tp:
+    with ThreadPoolExecutor(max_workers=min(n_jvm, len(fams) + 1)) as tp:
+        fut = tp.submit(non_theorem, None)
         checked = list(tp.map(model_check, fams))
+        ck.extra["growth_G03_non_theorem_RawAlwaysAgrees"] = fut.result()
 
     # 2. the binding: the records replayed on the real objects (forked workers; gemseo imported once)
     import gemseo  # noqa: F401
@@ -483,7 +541,7 @@ def run(ck):
         indexed = list(enumerate(cases))
         for c in range(0, len(indexed), chunk):
             jobs.append((header, indexed[c:c + chunk], ck.seed * 7919 + 1000 * f + c, par_execs,
-                         3 if ck.thorough else 1))
+                         2 if ck.thorough else 1))
             owner.append(label)
     n_proc = max(1, min(8, len(jobs)))
     if n_proc == 1:
@@ -492,7 +550,8 @@ def run(ck):
         with mp.get_context("fork").Pool(n_proc) as pool:
             results = pool.map(_replay_chunk, jobs, chunksize=1)
 
-    total = {"cases": 0, "execs": 0, "ops": 0, "rejected_ops": 0, "nested": 0, "quiet_cases": 0}
+    total = {"cases": 0, "execs": 0, "ops": 0, "rejected_ops": 0, "nested": 0, "by_hand": 0,
+             "by_hand_differs_from_composite": 0, "quiet_cases": 0}
     per_family = {label: {"instances": kw["count"], "tlc_distinct_states": r.distinct, "composites": 0,
                           "executions": 0, "add_namespace_calls": 0, "rejected_calls": 0, "nested_chains": 0}
                   for label, kw, r, _, _ in checked}
